@@ -124,7 +124,7 @@ Qed.
 Lemma aesthetics_length m flux iv : length iv = length flux ->
   length (aesthetics_model m flux iv) = length flux.
 Proof.
-  intros H. unfold aesthetics_model. cbv zeta.
+  intros H. unfold aesthetics_model. destruct (forallb _ _); [reflexivity|]. unfold aesthetics_core. cbv zeta.
   destruct (existsb _ _); [|reflexivity].
   destruct m; try reflexivity; try (apply maskinterp_idx_length; rewrite map_length; exact H).
   rewrite map_length, combine_length. lia.
@@ -196,7 +196,8 @@ Theorem aesthetics_support m flux iv : length iv = length flux ->
 Proof.
   intros Hlen q Hq HM.
   pose proof (nthQ_overflow_zero iv q Hq) as Hql.
-  unfold aesthetics_model. cbv zeta. destruct (existsb _ _); [|reflexivity].
+  unfold aesthetics_model. destruct (forallb _ _); [reflexivity|]. unfold aesthetics_core.
+  cbv zeta. destruct (existsb _ _); [|reflexivity].
   assert (Hbad : nth q (map (fun v => Qeq_bool v 0) iv) false = false).
   { rewrite (nth_map_lt _ 0 false) by exact Hql. apply Qeq_bool_false_of_neq. exact Hq. }
   destruct m; try reflexivity;
@@ -548,7 +549,13 @@ Proof.
             nth q (map (fun v => Qeq_bool v 0) iv) false = false -> ~ nthQ iv q == 0).
   { intros q Hq Hb E. rewrite (nth_map_lt _ 0 false) in Hb by exact Hq.
     apply Qeq_bool_iff in E. unfold nthQ in E. congruence. }
-  unfold aesthetics_model. cbv zeta. destruct (existsb _ _) eqn:Eex.
+  unfold aesthetics_model. destruct (forallb _ _) eqn:Eall.
+  { exfalso. rewrite forallb_forall in Eall.
+    specialize (Eall (Qeq_bool (nth q0 iv 0) 0)).
+    assert (Hin : In (Qeq_bool (nth q0 iv 0) 0) (map (fun v => Qeq_bool v 0) iv)).
+    { apply (in_map (fun v => Qeq_bool v 0)). apply nth_In. exact Hl0. }
+    specialize (Eall Hin). apply Hnz0. unfold nthQ. apply Qeq_bool_iff. exact Eall. }
+  unfold aesthetics_core. cbv zeta. destruct (existsb _ _) eqn:Eex.
   - assert (HT : Forall (fun a => a == c) (maskinterp_idx flux (map (fun v => Qeq_bool v 0) iv))).
     { apply maskinterp_constant.
       - rewrite map_length. exact Hlen.
